@@ -186,7 +186,7 @@ fn model(t: &mut Tree, op: &Op) -> Exp {
             Some(Node::Dir) => Exp::Skip,
             Some(Node::File(d)) => {
                 if p == q {
-                    return Exp::Skip; // "copy then delete" is degenerate here
+                    return Exp::Open; // a file moved onto itself is still there (tree unchanged); the output is not documented
                 }
                 match t.get(q) {
                     Some(Node::File(_)) => {
@@ -698,7 +698,7 @@ pub fn replay(case: &Value) -> Result<String, String> {
     Ok(out.join("\n").replace(&d, "<scratch>"))
 }
 
-pub const RULE: &str = "explicit-state breadth-first search from the empty directory to a fixpoint: writefile / appendfile with 3 contents, write/read binary file, readfile, touch, mkdir, cp and mv for every ordered pair of paths, rm, rm -r, rmdir, is_path_exists, is_file, is_dir, get_file_size and a recursive glob_array listing, over the paths {a.txt, d, d/b.txt, (d/e/c.txt,) 's p/ü.txt'} and the directories d/e and 's p'; operations that would exceed the entry or size bound are disabled; operations the documentation does not fix in the current state (directory sources of cp/mv, mv onto itself, mv to a missing extension-less path, touch on a directory) are not generated. Each transition materialises the tree in a fresh scratch directory, runs the real command with absolute paths, snapshots the directory and compares output and the complete tree with the model (a failing operation must leave the tree unchanged). basename / dirname / join_path are swept separately (they do not depend on the tree). evaluations = transitions; distinct_nontrivial = distinct trees. Scale cases: write / read / size / cp / append / mv / overwrite with contents of 4095..65537 bytes (thorough: up to 5 MB), plain and with a two-byte character across the middle; 12 short contents that start or end with a byte order mark, line breaks, blanks, TAB, no-break / ideographic space, '#', a quote (write / read / size / cp / append)";
-pub const ASSUMPTIONS: &[&str] = &["the scratch directory is on tmpfs (/dev/shm) or a local file system without symlinks, permissions left at their defaults", "the output of rm on a missing path and of cp onto itself is not compared (only the tree)"];
+pub const RULE: &str = "explicit-state breadth-first search from the empty directory to a fixpoint: writefile / appendfile with 3 contents, write/read binary file, readfile, touch, mkdir, cp and mv for every ordered pair of paths, rm, rm -r, rmdir, is_path_exists, is_file, is_dir, get_file_size and a recursive glob_array listing, over the paths {a.txt, d, d/b.txt, (d/e/c.txt,) 's p/ü.txt'} and the directories d/e and 's p'; operations that would exceed the entry or size bound are disabled; operations the documentation does not fix in the current state (directory sources of cp/mv, mv to a missing extension-less path, touch on a directory) are not generated. Each transition materialises the tree in a fresh scratch directory, runs the real command with absolute paths, snapshots the directory and compares output and the complete tree with the model (a failing operation must leave the tree unchanged). basename / dirname / join_path are swept separately (they do not depend on the tree). evaluations = transitions; distinct_nontrivial = distinct trees. Scale cases: write / read / size / cp / append / mv / overwrite with contents of 4095..65537 bytes (thorough: up to 5 MB), plain and with a two-byte character across the middle; 12 short contents that start or end with a byte order mark, line breaks, blanks, TAB, no-break / ideographic space, '#', a quote (write / read / size / cp / append)";
+pub const ASSUMPTIONS: &[&str] = &["the scratch directory is on tmpfs (/dev/shm) or a local file system without symlinks, permissions left at their defaults", "the output of rm on a missing path and of cp / mv of a file onto itself is not compared (only the tree, which must be unchanged)"];
 pub const EXHAUSTIVE: bool = true;
 pub const WALL_CAP_S: (u64, u64) = (58, 1500);
